@@ -53,15 +53,17 @@ def ckdData (M : Nat → Point → Point) (par : XPrv) (i : Nat) : Option Bytes 
   if hardenedStart ≤ i then some (0x00 :: (ser256 par.key ++ ser32 i))
   else (serCompressed (M par.key G)).map (· ++ ser32 i)
 
-/-- CKDpriv((k_par, c_par), i) → (k_i, c_i);  `none` = "the resulting key is invalid". -/
+/-- The second half of CKDpriv: from `I = HMAC-SHA512(Key = c_par, Data = data)`, split into `I_L ‖ I_R`,
+`k_i = parse256(I_L) + k_par (mod n)`, `c_i = I_R`;  `none` = "the resulting key is invalid". -/
+def ckdFromData (par : XPrv) (data : Bytes) : Option XPrv :=
+  let I := hmacSha512 par.chain data
+  let il := parse256 (I.take 32)
+  let k := (il + par.key) % n
+  if n ≤ il ∨ k = 0 then none else some ⟨k, I.drop 32⟩
+
+/-- CKDpriv((k_par, c_par), i) → (k_i, c_i). -/
 def ckdPriv (M : Nat → Point → Point) (par : XPrv) (i : Nat) : Option XPrv :=
-  match ckdData M par i with
-  | none => none
-  | some data =>
-    let I := hmacSha512 par.chain data
-    let il := parse256 (I.take 32)
-    let k := (il + par.key) % n
-    if n ≤ il ∨ k = 0 then none else some ⟨k, I.drop 32⟩
+  (ckdData M par i).bind (ckdFromData par)
 
 /-- BIP32's "proceed with the next value for i" (within `tries` attempts). -/
 def ckdPrivNext (M : Nat → Point → Point) (par : XPrv) : Nat → Nat → Option (Nat × XPrv)
@@ -74,15 +76,10 @@ def ckdPrivNext (M : Nat → Point → Point) (par : XPrv) : Nat → Nat → Opt
 /-- Derive along a path of (already hardened-or-not) indices. -/
 def derivePath (M : Nat → Point → Point) : XPrv → List Nat → Option XPrv
   | k, [] => some k
-  | k, i :: rest =>
-    match ckdPriv M k i with
-    | some c => derivePath M c rest
-    | none => none
+  | k, i :: rest => (ckdPriv M k i).bind (fun c => derivePath M c rest)
 
 /-- `m/path` from a seed. -/
 def fromSeed (M : Nat → Point → Point) (seed : Bytes) (path : List Nat) : Option XPrv :=
-  match master seed with
-  | some m => derivePath M m path
-  | none => none
+  (master seed).bind (fun m => derivePath M m path)
 
 end Gonuts.Spec.Bip32
